@@ -232,6 +232,7 @@ func (x *Exec) api(task string, op Op, phase string) *APICall {
 			}
 		}()
 		c.Ret = step()
+		wr.Idx = len(x.W) // (assigned after the call: other tasks may have created Watchers meanwhile)
 		c.W = wr.Idx
 		if err != nil {
 			c.Err, c.Class = err.Error(), classify(err)
@@ -243,7 +244,9 @@ func (x *Exec) api(task string, op Op, phase string) *APICall {
 			wr.W = w
 			wr.Cap = cap(w.Events)
 			if x.nInst() > wr.nInstBefore {
-				wr.Inst = x.lastInst()
+				if in := x.lastInst(); in != nil && in.Ord >= wr.nInstBefore {
+					wr.Inst = in
+				}
 			}
 		}
 		x.W = append(x.W, wr)
@@ -427,8 +430,8 @@ func (f flagWaiter) Ready() bool { return f.x.nDone >= len(f.x.sc.Tasks) }
 func (x *Exec) doOp(task string, op Op, phase string) {
 	switch op.K {
 	case OpNewWatcher:
-		x.api(task, op, phase)
-		x.startConsumer(x.W[len(x.W)-1])
+		c := x.api(task, op, phase)
+		x.startConsumer(x.W[c.W])
 	case OpAdd, OpRemove, OpWatchList, OpClose:
 		x.api(task, op, phase)
 	case OpQuiesce:
